@@ -164,8 +164,9 @@ def run_shard(spec, rec):
             if escaped:
                 rec.sample({"literal": t, "decodes_to_codepoints": [hex(ord(c)) for c in s]}, limit=4)
             if len(batch) == 32:
-                report(rec, batch_names(jp, rec, batch))
-                report(rec, batch_compare(jp, rec, batch))
+                for _rep in range(2):   # twice: compiling the same text again must give the same decoding
+                    report(rec, batch_names(jp, rec, batch))
+                    report(rec, batch_compare(jp, rec, batch))
                 batch = []
         if batch:
             report(rec, batch_names(jp, rec, batch))
